@@ -8,7 +8,9 @@ import (
 	"seehuhn.de/go/postscript/funit"
 	"seehuhn.de/go/sfnt/glyf"
 	"seehuhn.de/go/sfnt/glyph"
+	"seehuhn.de/go/sfnt/opentype/classdef"
 	"seehuhn.de/go/sfnt/opentype/coverage"
+	"seehuhn.de/go/sfnt/opentype/gdef"
 	"seehuhn.de/go/sfnt/opentype/gtab"
 )
 
@@ -32,6 +34,17 @@ func VerifH_C15_plain() {
 		o.Widths[i] = funit.Int16(verifI16("width"))
 	}
 	f.CMapTable = verifCmap12([]rune{'A', 'B'}, []glyph.ID{1, 2})
+	// glyph 2 is a base glyph, a mark (marks get no advance) or unclassified
+	class2 := verifU16("class2")
+	verifAssume(class2 == 0 || class2 == 1 || class2 == 3)
+	if verifBool("gdef") {
+		f.Gdef = &gdef.Table{GlyphClass: classdef.Table{1: 1}}
+		if class2 != 0 {
+			f.Gdef.GlyphClass[2] = class2
+		}
+	} else {
+		class2 = 0
+	}
 	l, err := f.NewLayouter(language.MustParse("en"), nil, nil)
 	verifAssert(err == nil, "layouter created")
 	if err != nil {
@@ -56,7 +69,11 @@ func VerifH_C15_plain() {
 		}
 		verifAssert(seq[i].GID == want, "glyph from the best cmap subtable (0 when unmapped)")
 		verifAssert(len(seq[i].Text) == 1 && seq[i].Text[0] == r, "glyph carries its character")
-		verifAssert(seq[i].Advance == o.Widths[want] && seq[i].XOffset == 0 && seq[i].YOffset == 0, "advance is the font's advance width")
+		wantAdv := o.Widths[want]
+		if want == 2 && class2 == 3 {
+			wantAdv = 0
+		}
+		verifAssert(seq[i].Advance == wantAdv && seq[i].XOffset == 0 && seq[i].YOffset == 0, "advance is the font's advance width (none for marks), whatever was laid out before")
 	}
 }
 
